@@ -4,3 +4,5 @@
 pub mod c12;
 #[cfg(all(kani, feature = "hashable"))]
 mod c18;
+#[cfg(all(kani, feature = "ext"))]
+mod c12x;
